@@ -91,79 +91,7 @@ func checkC08(c *Ctx, r *Report) {
 	}
 
 	// ---- C08-trichotomy
-	r.Rule("C08-trichotomy", 3, "every ordering of position and size makes progress or ends the stream")
-	for _, ord := range []int{-1, 0, 1} {
-		name := map[int]string{-1: "pos < size", 0: "pos == size", 1: "pos > size"}[ord]
-		o := r.Add("C08-trichotomy", where, name, c.pos(read.Pos()))
-		var eval func(v ssa.Value) (bool, bool)
-		eval = func(v ssa.Value) (bool, bool) {
-			switch x := v.(type) {
-			case *ssa.UnOp:
-				if x.Op == token.NOT {
-					b, ok := eval(x.X)
-					return !b, ok
-				}
-			case *ssa.BinOp:
-				if op, ok := cmpPosSize(x); ok {
-					return holds(op, ord), true
-				}
-				px, py := pathOf(x.X), pathOf(x.Y)
-				isErrCall := func(p string) bool { return strings.HasPrefix(p, "lzhuf.bitReader.Err(") }
-				switch {
-				case isErrCall(px) && (x.Op == token.EQL || x.Op == token.NEQ):
-					// no pending error: Err() == nil, Err() != io.EOF
-					if isNilConst(x.Y) {
-						return x.Op == token.EQL, true
-					}
-					return x.Op == token.NEQ, true
-				case strings.HasSuffix(px, ".err") && isNilConst(x.Y):
-					return x.Op == token.EQL, true
-				case strings.HasPrefix(px, "bytes.Buffer.Len("):
-					if k, isC := constInt(x.Y); isC && k == 0 {
-						return holds(x.Op, 0), true // the hold-back buffer is empty
-					}
-				case strings.HasPrefix(py, "builtin.len(") && isIntType(x.X.Type()):
-					// n ? len(p): nothing was copied from the empty buffer and len(p) > 0
-					return holds(x.Op, -1), true
-				case strings.HasPrefix(px, "builtin.len("):
-					if k, isC := constInt(x.Y); isC && k == 0 {
-						return holds(x.Op, 1), true // len(p) > 0
-					}
-				}
-			}
-			return false, false
-		}
-		decodes := func(b *ssa.BasicBlock) ssa.Instruction {
-			for _, in := range b.Instrs {
-				if call, ok := in.(*ssa.Call); ok && strings.HasPrefix(callName(&call.Call), "lzhuf.Reader.decode") {
-					return in
-				}
-			}
-			return nil
-		}
-		blk, end, stuck := absWalk(read, eval, decodes)
-		switch {
-		case stuck != "":
-			o.Bad("cannot decide this ordering: %s (at %s)", stuck, c.pos(blk.Instrs[len(blk.Instrs)-1].Pos()))
-		case end == nil:
-			o.Bad("walk ended without a verdict")
-		default:
-			if ret, ok := end.(*ssa.Return); ok {
-				ev := resOf(ret, len(ret.Results)-1)
-				if isNilConst(origin(ev)) {
-					o.Bad("with %s, no pending error and an empty buffer, Read returns (0, nil) at %s without decoding: a consumer such as io.Copy spins forever", name, c.pos(ret.Pos()))
-				} else {
-					o.OK("Read returns a non-nil error/EOF (%s) at %s", pathOf(origin(ev)), c.pos(ret.Pos()))
-				}
-			} else {
-				if ord >= 0 {
-					o.Bad("with %s the decoder is entered at %s: output can exceed the declared size", name, c.pos(end.Pos()))
-				} else {
-					o.OK("the decoder is entered (%s): progress", c.pos(end.Pos()))
-				}
-			}
-		}
-	}
+	trichotomyRule(c, r, "C08-trichotomy", read, cmpPosSize, holds)
 
 	// ---- C08-bounded
 	r.Rule("C08-bounded", 2, "a pos < size edge is taken between any two increments of the position")
@@ -450,4 +378,117 @@ func lzhufCrashCfg(c *Ctx, rule string, entries []*ssa.Function) crashCfg {
 			"(*lzhuf.Reader).Read|index d.z.textBuf[d.state.r]": "the window cursor is constant-initialised below N and masked with N-1 after every increment (rule C08-window); textBuf holds N+F-1 bytes",
 		},
 	}
+}
+
+// trichotomyRule: C08-trichotomy / C03-spin.
+func trichotomyRule(c *Ctx, r *Report, rule string, read *ssa.Function, cmpPosSize func(*ssa.BinOp) (token.Token, bool), holds func(token.Token, int) bool) {
+	where := fnName(read)
+	r.Rule(rule, 3, "every ordering of position and size makes progress or ends the stream")
+	for _, ord := range []int{-1, 0, 1} {
+		name := map[int]string{-1: "pos < size", 0: "pos == size", 1: "pos > size"}[ord]
+		o := r.Add(rule, where, name, c.pos(read.Pos()))
+		var eval func(v ssa.Value) (bool, bool)
+		eval = func(v ssa.Value) (bool, bool) {
+			switch x := v.(type) {
+			case *ssa.UnOp:
+				if x.Op == token.NOT {
+					b, ok := eval(x.X)
+					return !b, ok
+				}
+			case *ssa.BinOp:
+				if op, ok := cmpPosSize(x); ok {
+					return holds(op, ord), true
+				}
+				px, py := pathOf(x.X), pathOf(x.Y)
+				isErrCall := func(p string) bool { return strings.HasPrefix(p, "lzhuf.bitReader.Err(") }
+				switch {
+				case isErrCall(px) && (x.Op == token.EQL || x.Op == token.NEQ):
+					// no pending error: Err() == nil, Err() != io.EOF
+					if isNilConst(x.Y) {
+						return x.Op == token.EQL, true
+					}
+					return x.Op == token.NEQ, true
+				case strings.HasSuffix(px, ".err") && isNilConst(x.Y):
+					return x.Op == token.EQL, true
+				case strings.HasPrefix(px, "bytes.Buffer.Len("):
+					if k, isC := constInt(x.Y); isC && k == 0 {
+						return holds(x.Op, 0), true // the hold-back buffer is empty
+					}
+				case strings.HasPrefix(py, "builtin.len(") && isIntType(x.X.Type()):
+					// n ? len(p): nothing was copied from the empty buffer and len(p) > 0
+					return holds(x.Op, -1), true
+				case strings.HasPrefix(px, "builtin.len("):
+					if k, isC := constInt(x.Y); isC && k == 0 {
+						return holds(x.Op, 1), true // len(p) > 0
+					}
+				}
+			}
+			return false, false
+		}
+		decodes := func(b *ssa.BasicBlock) ssa.Instruction {
+			for _, in := range b.Instrs {
+				if call, ok := in.(*ssa.Call); ok && strings.HasPrefix(callName(&call.Call), "lzhuf.Reader.decode") {
+					return in
+				}
+			}
+			return nil
+		}
+		blk, end, stuck := absWalk(read, eval, decodes)
+		switch {
+		case stuck != "":
+			o.Bad("cannot decide this ordering: %s (at %s)", stuck, c.pos(blk.Instrs[len(blk.Instrs)-1].Pos()))
+		case end == nil:
+			o.Bad("walk ended without a verdict")
+		default:
+			if ret, ok := end.(*ssa.Return); ok {
+				ev := resOf(ret, len(ret.Results)-1)
+				if isNilConst(origin(ev)) {
+					o.Bad("with %s, no pending error and an empty buffer, Read returns (0, nil) at %s without decoding: a consumer such as io.Copy spins forever", name, c.pos(ret.Pos()))
+				} else {
+					o.OK("Read returns a non-nil error/EOF (%s) at %s", pathOf(origin(ev)), c.pos(ret.Pos()))
+				}
+			} else {
+				if ord >= 0 {
+					o.Bad("with %s the decoder is entered at %s: output can exceed the declared size", name, c.pos(end.Pos()))
+				} else {
+					o.OK("the decoder is entered (%s): progress", c.pos(end.Pos()))
+				}
+			}
+		}
+	}
+
+}
+
+// lzOrdering returns the helpers that interpret comparisons between the decoded position and the
+// declared size of a lzhuf.Reader.
+func lzOrdering() (func(*ssa.BinOp) (token.Token, bool), func(token.Token, int) bool) {
+	isPos := func(v ssa.Value) bool { return strings.HasSuffix(pathOf(strip(v)), ".state.pos") }
+	isSize := func(v ssa.Value) bool { return strings.HasSuffix(pathOf(strip(v)), ".header.size") }
+	cmp := func(b *ssa.BinOp) (token.Token, bool) {
+		switch {
+		case isPos(b.X) && isSize(b.Y):
+			return b.Op, true
+		case isSize(b.X) && isPos(b.Y):
+			return flipOp(b.Op), true
+		}
+		return 0, false
+	}
+	holds := func(op token.Token, ord int) bool {
+		switch op {
+		case token.LSS:
+			return ord < 0
+		case token.LEQ:
+			return ord <= 0
+		case token.GTR:
+			return ord > 0
+		case token.GEQ:
+			return ord >= 0
+		case token.EQL:
+			return ord == 0
+		case token.NEQ:
+			return ord != 0
+		}
+		return false
+	}
+	return cmp, holds
 }
